@@ -488,7 +488,15 @@ pub fn exec_u(w: &mut World, op: &Op, rest: &str, env: &mut Env) {
             env.emit_u64("heq", (h == h2) as u64);
         }
         "sum" => {
-            w.u[dst] = match form % 4 {
+            w.u[dst] = match form % 6 {
+                4 => w.u.iter().fold(UBig::ZERO, |acc, v| acc + v),
+                5 => {
+                    let bits: usize = w.u.iter().map(|v| v.bit_len()).sum();
+                    if bits > GUARD_BITS {
+                        return env.skip();
+                    }
+                    w.u.iter().fold(UBig::ONE, |acc, v| acc * v)
+                }
                 0 => w.u.iter().sum(),
                 1 => {
                     let items = untracked(|| Vec::with_capacity(NP));
@@ -998,15 +1006,23 @@ pub fn exec_i(w: &mut World, op: &Op, rest: &str, env: &mut Env) {
             env.emit_u64("heq", (h == h2) as u64);
         }
         "sum" => {
-            w.i[dst] = match form % 2 {
+            let bits: usize = w.i.iter().map(|v| v.bit_len()).sum();
+            if form % 6 % 2 == 1 && bits > GUARD_BITS {
+                return env.skip();
+            }
+            w.i[dst] = match form % 6 {
                 0 => w.i.iter().sum(),
-                _ => {
-                    let bits: usize = w.i.iter().map(|v| v.bit_len()).sum();
-                    if bits > GUARD_BITS {
-                        return env.skip();
-                    }
-                    w.i.iter().product()
+                1 => w.i.iter().product(),
+                2 => {
+                    let items: Vec<IBig> = w.i.iter().cloned().collect();
+                    items.into_iter().sum()
                 }
+                3 => {
+                    let items: Vec<IBig> = w.i.iter().cloned().collect();
+                    items.into_iter().product()
+                }
+                4 => w.i.iter().fold(IBig::ZERO, |acc, v| acc + v),
+                _ => w.i.iter().fold(IBig::ONE, |acc, v| acc * v),
             };
             env.res(Pool::I, dst);
         }
@@ -1351,6 +1367,51 @@ pub fn exec_prim(w: &mut World, op: &Op, fam: &str, rest: &str, env: &mut Env) {
             env.res(Pool::I, dst);
         }};
     }
+    // quotient and remainder with a primitive divisor: trait forms, assign forms, the operator pair, the reference
+    macro_rules! divrem {
+        ($x:expr, $B:ty, $t:ty) => {{
+            let Ok(p) = <$t>::try_from(val) else { return env.skip() };
+            let x: &$B = $x;
+            let (q, r): ($B, IBig) = match var {
+                0 => {
+                    let (q, r) = x.clone().div_rem(p);
+                    (q, IBig::from(r))
+                }
+                1 => {
+                    let (q, r) = x.div_rem(p);
+                    (q, IBig::from(r))
+                }
+                2 => {
+                    let (q, r) = x.clone().div_rem(&p);
+                    (q, IBig::from(r))
+                }
+                3 => {
+                    let (q, r) = x.div_rem(&p);
+                    (q, IBig::from(r))
+                }
+                4 => {
+                    let mut y = x.clone();
+                    let r = y.div_rem_assign(p);
+                    (y, IBig::from(r))
+                }
+                5 => {
+                    let mut y = x.clone();
+                    let r = y.div_rem_assign(&p);
+                    (y, IBig::from(r))
+                }
+                6 => (x / p, IBig::from(x % p)),
+                10 => {
+                    let (q, r) = x.div_rem(&<$B>::from(p));
+                    (q, IBig::from(r))
+                }
+                _ => return env.skip(),
+            };
+            w.i[dst] = IBig::from(q);
+            w.i[(dst + 1) % NP] = r;
+            env.res(Pool::I, dst);
+            env.res(Pool::I, (dst + 1) % NP);
+        }};
+    }
     // operators whose primitive-on-the-left form exists: + - * (commutative macro), / (impl_div_by_primitive), & | ^
     macro_rules! by_type_u {
         ($k:tt, $tr:tt, $tra:tt) => {
@@ -1392,6 +1453,14 @@ pub fn exec_prim(w: &mut World, op: &Op, fam: &str, rest: &str, env: &mut Env) {
             "and" => by_type_u!(full, &, &=),
             "or" => by_type_u!(full, |, |=),
             "xor" => by_type_u!(full, ^, ^=),
+            "divrem" => match ty % 6 {
+                0 => divrem!(&w.u[a], UBig, u8),
+                1 => divrem!(&w.u[a], UBig, u16),
+                2 => divrem!(&w.u[a], UBig, u32),
+                3 => divrem!(&w.u[a], UBig, u64),
+                4 => divrem!(&w.u[a], UBig, u128),
+                _ => divrem!(&w.u[a], UBig, usize),
+            },
             _ => untracked(|| panic!("dsim: unknown op up.{}", rest)),
         }
     } else {
@@ -1404,6 +1473,20 @@ pub fn exec_prim(w: &mut World, op: &Op, fam: &str, rest: &str, env: &mut Env) {
             "and" => by_type_i!(full, &, &=),
             "or" => by_type_i!(full, |, |=),
             "xor" => by_type_i!(full, ^, ^=),
+            "divrem" => match ty {
+                0 => divrem!(&w.i[a], IBig, u8),
+                1 => divrem!(&w.i[a], IBig, u16),
+                2 => divrem!(&w.i[a], IBig, u32),
+                3 => divrem!(&w.i[a], IBig, u64),
+                4 => divrem!(&w.i[a], IBig, u128),
+                5 => divrem!(&w.i[a], IBig, usize),
+                6 => divrem!(&w.i[a], IBig, i8),
+                7 => divrem!(&w.i[a], IBig, i16),
+                8 => divrem!(&w.i[a], IBig, i32),
+                9 => divrem!(&w.i[a], IBig, i64),
+                10 => divrem!(&w.i[a], IBig, i128),
+                _ => divrem!(&w.i[a], IBig, isize),
+            },
             _ => untracked(|| panic!("dsim: unknown op ip.{}", rest)),
         }
     }
@@ -1513,6 +1596,78 @@ pub fn exec_mod(w: &mut World, op: &Op, rest: &str, env: &mut Env) {
             let y = r2.reduce(w.i[c].clone());
             let z = if op.n & 1 == 1 { x + y } else { x * y };
             w.u[dst] = z.residue();
+            env.res(Pool::U, dst);
+        }
+        "rop" => {
+            // one operator of the modular ring in every ownership / assignment form (n selects the operator)
+            let d = if op.lit.is_empty() { w.u[a].clone() } else { UBig::from_le_bytes(&op.lit) };
+            if d.is_zero() {
+                return env.skip();
+            }
+            let ring = ConstDivisor::new(d);
+            let x = ring.reduce(w.u[b].clone());
+            let y = ring.reduce(w.i[c].clone());
+            let f = op.form & 255;
+            macro_rules! rforms {
+                ($tr:tt, $tra:tt) => {
+                    match f % 6 {
+                        0 => x.clone() $tr y.clone(),
+                        1 => x.clone() $tr &y,
+                        2 => &x $tr y.clone(),
+                        3 => &x $tr &y,
+                        4 => {
+                            let mut t = x.clone();
+                            t $tra y.clone();
+                            t
+                        }
+                        _ => {
+                            let mut t = x.clone();
+                            t $tra &y;
+                            t
+                        }
+                    }
+                };
+            }
+            let r = match op.n.unsigned_abs() % 5 {
+                0 => rforms!(+, +=),
+                1 => rforms!(-, -=),
+                2 => rforms!(*, *=),
+                3 => rforms!(/, /=),
+                _ => {
+                    if f % 2 == 0 {
+                        -x.clone()
+                    } else {
+                        -&x
+                    }
+                }
+            };
+            w.u[dst] = r.residue();
+            env.res(Pool::U, dst);
+        }
+        "reduce" => {
+            // the same number brought into the ring from different types
+            let d = if op.lit.is_empty() { w.u[a].clone() } else { UBig::from_le_bytes(&op.lit) };
+            if d.is_zero() {
+                return env.skip();
+            }
+            let ring = ConstDivisor::new(d);
+            let v = op.m.unsigned_abs();
+            let neg = op.n & 1 == 1;
+            let r = match ((op.form & 255) % 6, neg) {
+                (0, false) => ring.reduce(v),
+                (1, false) => ring.reduce(v as u128),
+                (2, false) => ring.reduce(UBig::from(v)),
+                (3, false) => ring.reduce(IBig::from(v)),
+                (4, false) => ring.reduce(v as i128),
+                (_, false) => ring.reduce(&UBig::from(v) + &UBig::ZERO),
+                (0, true) => ring.reduce(-(v as i128)),
+                (1, true) => ring.reduce(-IBig::from(v)),
+                (2, true) => -ring.reduce(v),
+                (3, true) => -ring.reduce(UBig::from(v)),
+                (4, true) => ring.reduce(IBig::ZERO - IBig::from(v)),
+                (_, true) => ring.reduce(0u8) - ring.reduce(v),
+            };
+            w.u[dst] = r.residue();
             env.res(Pool::U, dst);
         }
         "udr" | "idr" => {
